@@ -392,3 +392,100 @@ func callFreeExceptMethods(e ast.Expr) bool {
 	})
 	return ok
 }
+
+// planFlagAccumulate: a boolean local accumulated by expression, `x = x || C` (or `x = C || x`), is the conditional
+// store `if C { x = true }`; `x = x && C` is `if !(C) { x = false }` - C free of calls other than method calls on plain
+// operands, so that evaluating it when the flag is already set changes nothing. "One handler asking for a retry is
+// enough" written as a running disjunction is the flag set in a branch, which is the form the path rules read.
+func planFlagAccumulate(p *Prog, in *inliner, plan *roundPlan) {
+	for _, pkg := range p.Pkgs {
+		info := pkg.TypesInfo
+		for _, file := range pkg.Syntax {
+			if strings.HasSuffix(p.Fset.Position(file.Pos()).Filename, "_test.go") {
+				continue
+			}
+			ast.Inspect(file, func(n ast.Node) bool {
+				var list []ast.Stmt
+				switch b := n.(type) {
+				case *ast.BlockStmt:
+					list = b.List
+				case *ast.CaseClause:
+					list = b.Body
+				}
+				for _, st := range list {
+					as, isAs := st.(*ast.AssignStmt)
+					if !isAs || as.Tok != token.ASSIGN || len(as.Lhs) != 1 || len(as.Rhs) != 1 {
+						continue
+					}
+					xid, isId := as.Lhs[0].(*ast.Ident)
+					if !isId {
+						continue
+					}
+					obj, _ := info.Uses[xid].(*types.Var)
+					if obj == nil || obj.IsField() || obj.Parent() == nil || obj.Pkg() == nil || obj.Parent() == obj.Pkg().Scope() {
+						continue
+					}
+					if bt, ok := obj.Type().Underlying().(*types.Basic); !ok || bt.Kind() != types.Bool {
+						continue
+					}
+					be, isBin := ast.Unparen(as.Rhs[0]).(*ast.BinaryExpr)
+					if !isBin || (be.Op != token.LOR && be.Op != token.LAND) {
+						continue
+					}
+					// flatten the chain of the same operator; exactly one operand is the flag itself
+					var ops []ast.Expr
+					var flat func(e ast.Expr)
+					flat = func(e ast.Expr) {
+						if b2, ok := ast.Unparen(e).(*ast.BinaryExpr); ok && b2.Op == be.Op {
+							flat(b2.X)
+							flat(b2.Y)
+							return
+						}
+						ops = append(ops, e)
+					}
+					flat(be)
+					self, mentions := -1, 0
+					for i, o := range ops {
+						if id, ok := ast.Unparen(o).(*ast.Ident); ok && info.Uses[id] == types.Object(obj) {
+							self = i
+						}
+						ast.Inspect(o, func(m ast.Node) bool {
+							if id, ok := m.(*ast.Ident); ok && info.Uses[id] == types.Object(obj) {
+								mentions++
+							}
+							return true
+						})
+					}
+					if self < 0 || mentions != 1 || len(ops) < 2 {
+						continue
+					}
+					var rest []string
+					okC := true
+					for i, o := range ops {
+						if i == self {
+							continue
+						}
+						if !callFreeExceptMethods(o) {
+							okC = false
+						}
+						rest = append(rest, "("+in.text(o.Pos(), o.End())+")")
+					}
+					if !okC {
+						continue
+					}
+					name := xid.Name
+					var txt string
+					if be.Op == token.LOR {
+						txt = "if " + strings.Join(rest, " || ") + " {\n" + name + " = true\n}"
+					} else {
+						txt = "if !(" + strings.Join(rest, " && ") + ") {\n" + name + " = false\n}"
+					}
+					fe := in.file(st.Pos())
+					fe.edits = append(fe.edits, textEdit{start: in.off(st.Pos()), end: in.off(st.End()), text: txt})
+					plan.expanded = append(plan.expanded, "boolean flag accumulated by expression written as a conditional store")
+				}
+				return true
+			})
+		}
+	}
+}
